@@ -8,6 +8,7 @@ every datagram seen on the wire during establishment and operation of a 2- and 3
 claimed source x verbatim / edited, each followed by 400 s of probes - judged by TLC (Trace_NodeRuns.C09RunOK)."""
 import os
 import vplib as V
+from checks import cloudcommon
 from checks import noderuns
 
 PID = "C09"
@@ -67,6 +68,7 @@ def run(tier, out):
                 "each run: 150 s capture phase (handshake, node info, keepalive, first rotation, payload), injection, 400 s of probes in every direction" % kinds,
         "self_test": st,
     }
+    cloudcommon.part(PID, tier, out, cov)
     return out.finish("model_checking", cov, assumptions=[
         "the attacker holds no trusted key; it sees and can resend every datagram, with any claimed source address",
         "Node.tla uses scaled timers (2 retries, 1 s linger); recorded runs use the code's constants (120 / 60 / 300)"])
